@@ -38,12 +38,10 @@ def pos_tensor(c, name, extents):
       expand=lambda ix: [(0,), (1,), (2,)], replay=lambda *a: replay_sb(*a))
 def smoothed_box(c, batch_rank):
     it, ctx = c.it, c.ctx
-    d = c.int("d")
-    c.assume(d.t >= 1)
+    d = c.size("d")
     bs = []
     for k in range(batch_rank):
-        b = c.int(f"b{k}")
-        c.assume(b.t >= 1)
+        b = c.size(f"b{k}")
         bs.append(b.t)
     shape = bs + [d.t]
     a = sym_tensor("a", shape)
@@ -86,8 +84,7 @@ def smoothed_box(c, batch_rank):
 @case("C17", clause="prior_density", functions=[f"{HS}.log_prob"], replay=lambda *a: replay_hs(*a))
 def horseshoe(c):
     it, ctx = c.it, c.ctx
-    d = c.int("d")
-    c.assume(d.t >= 1)
+    d = c.size("d")
     scale = pos_tensor(c, "scale", [d.t])
     ci = it.index.get_class(HS)
     o = VObj(ci, label="prior")
